@@ -141,3 +141,35 @@ def misuse(rng, frames, **over):
     p["cfg"]["inputs_by_frame"] = 4
     p["loss"] = rng.choice([0.0, 0.1])
     return p
+
+
+def gossip3(rng, frames, **over):
+    """Three peers, lossless links with latency; one dies, survivor 0 disconnects it explicitly a few frames
+    later and the other survivor learns the drop only through gossip - in the same packets that carry
+    survivor 0's (mispredicted) new inputs.  Both survivors end up with the same amount of the dead peer's
+    input, so the unchanged library must make them agree."""
+    p = general(rng, frames + 120, npeers=3, max_locals=1, window=8, **over)
+    p["cfg"]["timeout"] = 8000
+    p["cfg"]["notify"] = 4000
+    p["cfg"]["desync"] = 0
+    p["cfg"]["sparse"] = rng.random() < 0.3
+    at = rng.randrange(15, frames)
+    p["kills"] = [{"p": 2, "at_frame": at}]
+    # late enough for the dead peer's last packets (latency <= 70 ms) to have reached both survivors
+    p["discs"] = [{"p": 0, "h": 2, "at_frame": at + rng.choice([6, 7])}]
+    p["tick_ms"] = [16, 16, 16]
+    p["jitter"] = rng.choice([0, 2])
+    p["lat_lo"] = rng.choice([20, 30])
+    p["lat_hi"] = p["lat_lo"] + rng.choice([0, 20, 40])
+    p["loss"] = 0.0
+    p["dup"] = 0.0
+    p["alphabet"] = 16
+    p["change"] = 1.0
+    p["p_pause"] = 0.0
+    p["p_poll"] = 0.0
+    p["settle_ms"] = 2500
+    p["after_drop_progress"] = 30
+    p["max_ms"] = 60000
+    for pc in p["cfg"]["peers"]:
+        pc["delay"] = 0
+    return p
